@@ -42,6 +42,17 @@ def remote_case(rng):
                 ("properties", Obj([("a", Obj([("$ref", "#/definitions/t"), ("maximum", gs.Num("2"))]))]))]
     remote = Obj(([("$schema", own)] if own else []) + body)
     uri = "http://x.test/r.json"
+    # a chain of documents root -> r.json -> r2.json -> ... : the construct sits in the last one; every link may or may not declare
+    # its own $schema (a document without one is read under the draft of the document that referred to it)
+    hops = rng.choice([0, 0, 1, 1, 2])
+    chain = [[uri, remote]]
+    for h in range(hops):
+        nxt = "http://x.test/r%d.json" % (h + 2)
+        chain[-1][0] = nxt
+        link_own = rng.choice([None, None, None] + gs.D7_URIS + [gs.D2020_URI])
+        link_body = rng.choice([[("$ref", nxt)], [("allOf", [Obj([("$ref", nxt)])])]])
+        chain.insert(len(chain) - 1, None)
+        chain[-2] = ["http://x.test/r.json" if h == 0 else "http://x.test/r%d.json" % (h + 1), Obj(([("$schema", link_own)] if link_own else []) + link_body)]
     ref = Obj([("$ref", uri)])
     where = rng.choice(["root", "props", "allOf", "items", "deep"])
     if where == "root":
@@ -58,8 +69,8 @@ def remote_case(rng):
     insts = [gs.Num("1"), "s", [gs.Num("1"), gs.Num("2")], [gs.Num("1")], Obj([("a", gs.Num("1"))]), Obj([("a", gs.Num("3")), ("b", None)]),
              Obj([("c", None)]), Obj([("p", gs.Num("1"))]), Obj([("p", "s")]), Obj([("p", [gs.Num("1"), "x"])]),
              Obj([("p", Obj([("a", gs.Num("5"))]))]), [[gs.Num("1"), "x"]], [Obj([("a", gs.Num("5"))])]]
-    return {"op": "validate", "args": {"schema": root, "docs": [[uri, remote]], "insts": insts},
-            "meta": {"kw": 5, "remote": True}}
+    return {"op": "validate", "args": {"schema": root, "docs": chain, "insts": insts},
+            "meta": {"kw": 5, "remote": True, "hops": hops}}
 
 
 def gen(rng, tier, n):
@@ -69,6 +80,14 @@ def gen(rng, tier, n):
         r = rng.random()
         if r < 0.2:
             ops.append(remote_case(rng))
+            continue
+        if r < 0.27:
+            from .. import gen_refs
+            root, docs, base, loader, insts, expect, meta = gen_refs.gen_universe(rng, "7", 3)
+            if meta.get("d9"):
+                continue      # the class of known finding D9 (listed under C03) is not drawn here
+            meta.update({"expect": expect, "kw": 3})
+            ops.append({"op": "validate", "args": {"schema": root, "docs": docs, "base": base, "loader": loader, "insts": insts}, "meta": meta})
             continue
         uri = rng.choice(gs.D7_URIS) if r < 0.85 else rng.choice(SCHEMA_VALUES)
         c = gs.Ctx(rng, "7" if uri in gs.D7_URIS else rng.choice(["7", "2020"]), depth=rng.choice([1, 2, depth]))
